@@ -115,6 +115,10 @@ class Judge:
         if fam == "deploy":
             return set()
         if fam == "schedule":
+            # every connector port the step consumed (one per alternative target of its binding), not only the
+            # deployment the job was finally scheduled on, plus the job's inputs
+            if sum(1 for pn in self.wiring[sn]["in"] if pn.startswith("__connector__")) >= 2:
+                self.counts["schedule_multi_target_tokens"] += 1
             e = set()
             for pn, ts in c.items():
                 if pn.startswith("__connector__"):
